@@ -1069,8 +1069,9 @@ def _build_constant(
 ) -> str | Expr:
     if isinstance(node.value, str):
         if in_joined_str and not in_formatted_str:
-            # We're in a f-string, not in a formatted value, don't keep quotes.
-            return node.value
+            # We're in a f-string, not in a formatted value, don't keep quotes,
+            # and double the braces that are meant literally.
+            return node.value.replace("{", "{{").replace("}", "}}")
         if parse_strings and not literal_strings:
             # We're in a place where a string could be a type annotation
             # (and not in a Literal[...] type annotation).
